@@ -144,6 +144,7 @@ func checkBal(c *core.Ctx, srv *run.Server, bc balCase) {
 		if bc.element != "" {
 			args = append(args, "-s", bc.element)
 		}
+		args = respell(c.Rng("spell", len(bc.files["log.yaml"])+len(bc.label)), args)
 		res := srv.App1(args, nil)
 		c.Eval(1)
 		sigCmd := mode.name
